@@ -368,3 +368,47 @@ Definition no_start_fragment (smp : expr -> expr) (TP : tproblem) : bool :=
                      | Some a' => plain_step smp (snd id) a'
                      | None => false
                      end) (tp_dur TP).
+
+(* the same sub-fragment without the restriction to durative actions: instantaneous actions (copied unchanged by the
+   compiler) may be mixed with end-effect-only durative actions *)
+Definition end_only_fragment (smp : expr -> expr) (TP : tproblem) : bool :=
+  t2s_fragment TP &&
+  forallb (fun id => match t2s_action smp (snd id) with
+                     | Some a' => plain_step smp (snd id) a'
+                     | None => false
+                     end) (tp_dur TP).
+
+(* ------------------------------------------------------------------ sub-fragment "start effects written, not read"
+   (definitions for the open goals of Props/C28_whole.v) *)
+(* no fluent symbol of [fs] occurs in [e] *)
+Fixpoint no_sym (fs : list N) (e : expr) {struct e} : bool :=
+  match e with
+  | EBool _ | EInt _ | EReal _ | EObj _ | EParam _ | EVar _ _ => true
+  | EFluent g args => forallb (no_sym fs) args && negb (memN g fs)
+  | EIFun _ l | EAnd l | EOr l | EPlus l | ETimes l => forallb (no_sym fs) l
+  | ENot a | EAlways a | ESometime a | EAtMostOnce a | EExists _ a | EForall _ a => no_sym fs a
+  | EImplies a b | EIff a b | EMinus a b | EDiv a b | ELe a b | ELt a b | EEquals a b
+  | ESometimeBefore a b | ESometimeAfter a b => no_sym fs a && no_sym fs b
+  end.
+
+(* the durative action has unconditional start effects (any kind) on fluent symbols that nothing else in the action
+   mentions (no condition, no effect value, no target argument, no end target), unconditional end assignments, and
+   the compiler's output is: the end assignments with simplified values, then the start effects; every kept condition
+   is TRUE or among the preconditions (so the start-effect substitution changed nothing) *)
+Definition start_not_read_step (smp : expr -> expr) (d : daction) (a' : action) : bool :=
+  let ls := start_effs d in
+  let le := end_effs d in
+  let fs := map e_fl ls in
+  effs_supported d && forallb plain_assign le &&
+  forallb (fun e => negb (memN (e_fl e) fs)) le &&
+  forallb (no_sym fs) (flat_map snd (d_conds d) ++ map e_val (ls ++ le) ++ flat_map e_args (ls ++ le)) &&
+  effects_eqb (a_effs a') (map (fun e => mk_assign e (smp (e_val e))) le ++ ls) &&
+  conds_covered smp d (a_pre a').
+
+Definition start_not_read_fragment (smp : expr -> expr) (TP : tproblem) : bool :=
+  t2s_fragment TP &&
+  forallb (fun id => alias_free (snd id) &&
+                     match t2s_action smp (snd id) with
+                     | Some a' => start_not_read_step smp (snd id) a'
+                     | None => false
+                     end) (tp_dur TP).
